@@ -212,5 +212,7 @@ let job_frag (job : Sx.t) : string =
           let ins = Stdlib.List.map (fun s -> bits_of_string (Sx.bytes s)) (Sx.list one) in
           TSemSemFull.canonical_main_args p ins) all) in
       Printf.sprintf " (canon %d %d)" n (Stdlib.List.length all) in
-  Printf.sprintf "(imp %d) (kfree %s) (safe %d) (cov %d) (total %d) (wtcov %d)%s" (if imp then 1 else 0) k (if safe then 1 else 0)
-    (if cov then 1 else 0) (if total then 1 else 0) (if wtcov then 1 else 0) canon
+  (* the premises of the end-to-end theorem (Compile/EndToEnd.v): certified, and the gate bound for both dedup settings *)
+  let e2e = EndToEnd.certified lfuel p && EndToEnd.within_gate_bound lfuel true p && EndToEnd.within_gate_bound lfuel false p in
+  Printf.sprintf "(imp %d) (kfree %s) (safe %d) (cov %d) (total %d) (wtcov %d) (e2e %d)%s" (if imp then 1 else 0) k (if safe then 1 else 0)
+    (if cov then 1 else 0) (if total then 1 else 0) (if wtcov then 1 else 0) (if e2e then 1 else 0) canon
